@@ -60,6 +60,26 @@ Theorem C08_server_denotes :
 Proof. exact server_denotes. Qed.
 Print Assumptions C08_server_denotes.
 
+(** comp is optional in calendar-data (RFC 4791 9.6): a request for the whole
+    object (no name, all properties, all components; with or without expand)
+    may also be written without comp; every lexical variant of that document
+    reaches the backend as the same request and is read as it. *)
+Theorem C08_server_denotes_without_comp :
+  forall (href_fmt : string -> string) (href_parse : string -> option string) path r doc,
+    valid href_fmt href_parse r = true -> fits_request r = true -> is_whole (req_cr r) = true ->
+    lexvar (rfc_write_nc href_fmt r) doc ->
+    handle_report href_parse path doc = Ok (backend_call_of path r).
+Proof. exact server_denotes_nc. Qed.
+Print Assumptions C08_server_denotes_without_comp.
+
+Theorem C08_rfc_read_without_comp :
+  forall (href_fmt : string -> string) (href_parse : string -> option string) r doc,
+    valid href_fmt href_parse r = true -> is_whole (req_cr r) = true ->
+    lexvar (rfc_write_nc href_fmt r) doc ->
+    rfc_read href_parse doc = Some r.
+Proof. exact rfc_read_lex_nc. Qed.
+Print Assumptions C08_rfc_read_without_comp.
+
 (** Client to backend: whatever the caller can express, nested below the
     limit, arrives at the backend of the server unchanged, instants as UTC
     seconds.  The premise is about the caller's value, not about XML. *)
